@@ -49,6 +49,23 @@ Theorem C15_rebinding_by_position : forall h tr op m args h' tr',
   length tr' = length tr.
 Proof. exact rebinding_by_position. Qed.
 
+(* a command is a value: added a second time (the same Python object or an equal one) its integers are
+   resolved again — the integer at position pos (last occurrence) is wired from output pos of the node the
+   FIRST add made, wire arguments are wired as they are, and the index moves on to the second node *)
+Theorem C15_repeated_command_chains : forall h tr op m m' args h1 tr1 h2 tr2,
+  t_add h tr op m args = (h1, tr1, None) ->
+  t_add h1 tr1 op m' args = (h2, tr2, None) ->
+  exists ws2,
+    h_nodes h2 = h_nodes h ++ [(op, m); (op, m')] /\
+    h_links h2 = h_links h1 ++ number_from (new_name h1) 0%N ws2 /\
+    length ws2 = length args /\
+    (forall pos w, nth_error args pos = Some (AW w) -> nth_error ws2 pos = Some w) /\
+    (forall pos i, nth_error args pos = Some (AI i) ->
+       (forall pos', pos < pos' -> nth_error args pos' <> Some (AI i)) ->
+       nth_error ws2 pos = Some (new_name h, N.of_nat pos) /\
+       tracked_wire tr2 i = Some (new_name h1, N.of_nat pos)).
+Proof. exact repeated_command_chains. Qed.
+
 (* untracking frees an index for good; new wires get fresh indices *)
 Theorem C15_untrack_is_permanent : forall h tr i h1 tr1,
   step h tr (Untrack i) = (h1, tr1, None) ->
@@ -81,3 +98,4 @@ Print Assumptions C15_untrack_is_permanent.
 Print Assumptions C15_track_wire_fresh_index.
 Print Assumptions C15_tracked_outputs_in_index_order.
 Print Assumptions C15_indexed_outputs_in_argument_order.
+Print Assumptions C15_repeated_command_chains.
